@@ -448,7 +448,14 @@ def load_known(pid):
     if not os.path.exists(p):
         return []
     d = json.load(open(p))
-    return [f for f in d.get('findings', []) if f.get('property') == pid]
+    out = [f for f in d.get('findings', []) if f.get('property') == pid]
+    # builders' test aid only (never set by the registered commands): also read a proposed list
+    extra = os.environ.get('VERIF_KNOWN_EXTRA')
+    if extra and os.path.exists(extra):
+        e = json.load(open(extra))
+        e = e.get('findings', []) if isinstance(e, dict) else e
+        out += [f for f in e if f.get('property') == pid and f.get('id') not in {x['id'] for x in out}]
+    return out
 
 
 # ---------------------------------------------------------------- evidence / replay
